@@ -77,8 +77,15 @@ Qed.
 Lemma post_exit e ts : follow_ok 8 ts -> parses (MPost e) ts (e, ts).
 Proof. intros H. exists 1. cbn. destruct ts as [|[] ts']; auto; cbn in H; lia. Qed.
 
-Lemma post_field e n ts r : parses (MPost (Field e n)) ts r -> parses (MPost e) (TDot :: TFld n :: ts) r.
-Proof. intros [f H]. exists (S f). cbn [go]. exact H. Qed.
+(* a `<` right after a field name is taken for the start of type arguments *)
+Definition not_lt (ts : list tok) : Prop := match ts with TOp Lt :: _ => False | _ => True end.
+
+Lemma post_field e n ts r : not_lt ts ->
+  parses (MPost (Field e n)) ts r -> parses (MPost e) (TDot :: TFld n :: ts) r.
+Proof.
+  intros Hn [f H]. exists (S f). cbn [go]. destruct ts as [|[] ?]; try exact H.
+  destruct o; try exact H. destruct Hn.
+Qed.
 
 Lemma post_call e a ts ts' r :
   parses (MLevel 0) ts (a, RP :: ts') -> parses (MPost (Call e a)) ts' r -> parses (MPost e) (LP :: ts) r.
@@ -245,12 +252,15 @@ Qed.
 Section RoundTrip.
 Variable dec : expr -> side -> bool.
 
-Lemma suff_node_side e s : suff_node dec e = true -> need e s = true -> dec e s = true.
+Lemma suff_node_side e s : suff_node dec e = true -> need dec e s = true -> dec e s = true.
 Proof.
   unfold suff_node. rewrite forallb_forall. intros H Hn.
   assert (Hin : In s sides) by (destruct s; cbn; tauto).
   specialize (H s Hin). rewrite Hn in H. exact H.
 Qed.
+
+Lemma need_level_need e s : need_level e s = true -> need dec e s = true.
+Proof. intros H. unfold need. rewrite H. reflexivity. Qed.
 
 Lemma suff_unfold e : suff dec e = true ->
   suff_node dec e = true /\
@@ -279,12 +289,12 @@ Proof.
     + eexists _, _; split; [reflexivity|cbn; lia].
     + destruct (IHa Hc) as (t & rest & E & Hl). rewrite E. cbn [app]. eexists _, _; split; [reflexivity|].
       destruct (Nat.ltb_spec (level_of a) 8) as [Hlt|]; [|lia].
-      rewrite (suff_node_side _ SBase Hn) in Ed; [discriminate|]. cbn [need]. apply ltb_true. exact Hlt.
+      rewrite (suff_node_side _ SBase Hn) in Ed; [discriminate|]. apply need_level_need. cbn [need_level]. apply ltb_true. exact Hlt.
   - destruct Hc as [Hca Hcx]. destruct (dec (Call a x) SBase) eqn:Ed; cbn [wrap app].
     + eexists _, _; split; [reflexivity|cbn; lia].
     + destruct (IHa Hca) as (t & rest & E & Hl). rewrite E. cbn [app]. eexists _, _; split; [reflexivity|].
       destruct (Nat.ltb_spec (level_of a) 8) as [Hlt|]; [|lia].
-      rewrite (suff_node_side _ SBase Hn) in Ed; [discriminate|]. cbn [need]. apply ltb_true. exact Hlt.
+      rewrite (suff_node_side _ SBase Hn) in Ed; [discriminate|]. apply need_level_need. cbn [need_level]. apply ltb_true. exact Hlt.
   - eexists _, _; split; [reflexivity|cbn; lia].
   - destruct u; eexists _, _; split; try reflexivity; cbn; lia.
   - destruct Hc as [Hca Hcb]. pose proof (plevel_bounds o).
@@ -292,7 +302,7 @@ Proof.
     + eexists _, _; split; [reflexivity|cbn; lia].
     + destruct (IHa Hca) as (t & rest & E & Hl). rewrite E. cbn [app]. eexists _, _; split; [reflexivity|].
       destruct (Nat.ltb_spec (level_of a) (plevel o)) as [Hlt|]; [|lia].
-      rewrite (suff_node_side _ SLeft Hn) in Ed; [discriminate|]. cbn [need]. apply ltb_true. exact Hlt.
+      rewrite (suff_node_side _ SLeft Hn) in Ed; [discriminate|]. apply need_level_need. cbn [need_level]. apply ltb_true. exact Hlt.
   - eexists _, _; split; [reflexivity|cbn; lia].
   - eexists _, _; split; [reflexivity|cbn; lia].
   - eexists _, _; split; [reflexivity|cbn; lia].
@@ -329,11 +339,11 @@ Proof.
 Qed.
 
 Lemma paren_parse c ts : suff dec c = true ->
-  (forall ts', follow_ok 0 ts' -> parses (MLevel 0) (gp dec c ++ ts') (c, ts')) ->
+  parses (MLevel 0) (gp dec c ++ RP :: ts) (c, RP :: ts) ->
   follow_ok 9 ts -> parses (MLevel 9) (LP :: gp dec c ++ RP :: ts) (c, ts).
 Proof.
   intros Hs Hunp Hf. destruct (gp_head c Hs) as (t & rest & E & _).
-  specialize (Hunp (RP :: ts) I). rewrite E in *. cbn [app] in *.
+  rewrite E in *. cbn [app] in *.
   assert (Hdec : (exists x, t = TId x) \/ (forall x, t <> TId x)).
   { destruct t; try (right; discriminate). left. eexists. reflexivity. }
   destruct Hdec as [[x ->]|Hne].
@@ -343,50 +353,51 @@ Proof.
   - apply base_paren; assumption.
 Qed.
 
+(* the printed child ends with a field name *)
+Definition efp (b : bool) (c : expr) : bool := negb b && ends_field dec c.
+
 Definition A (c : expr) : Prop := forall k b ts, k <= 9 -> (level_of c < k -> b = true) ->
-  follow_ok k ts -> parses (MLevel k) (wrap b (gp dec c) ++ ts) (c, ts).
+  follow_ok k ts -> (efp b c = true -> not_lt ts) -> parses (MLevel k) (wrap b (gp dec c) ++ ts) (c, ts).
 Definition L (c : expr) : Prop := forall j b ts r, 1 <= j <= 6 -> (level_of c < j -> b = true) ->
-  follow_ok (S j) ts -> parses (MLoop j c) ts r -> parses (MLevel j) (wrap b (gp dec c) ++ ts) r.
+  follow_ok (S j) ts -> (efp b c = true -> not_lt ts) -> parses (MLoop j c) ts r ->
+  parses (MLevel j) (wrap b (gp dec c) ++ ts) r.
 Definition P (c : expr) : Prop := forall b ts r, (level_of c < 8 -> b = true) ->
-  follow_ok 9 ts -> parses (MPost c) ts r -> parses (MLevel 8) (wrap b (gp dec c) ++ ts) r.
+  follow_ok 9 ts -> (efp b c = true -> not_lt ts) -> parses (MPost c) ts r ->
+  parses (MLevel 8) (wrap b (gp dec c) ++ ts) r.
 Definition A0 (c : expr) : Prop := forall ts, follow_ok (level_of c) ts ->
-  parses (MLevel (level_of c)) (gp dec c ++ ts) (c, ts).
+  (ends_field dec c = true -> not_lt ts) -> parses (MLevel (level_of c)) (gp dec c ++ ts) (c, ts).
 
 Lemma A_of_A0 c : suff dec c = true -> A0 c -> A c.
 Proof.
-  intros Hs H0 k b ts Hk Hb Hf. pose proof (level_of_bound c) as Hbound.
+  intros Hs H0 k b ts Hk Hb Hf Hlt. pose proof (level_of_bound c) as Hbound.
   destruct (gp_head c Hs) as (t & rest & E & Hh).
-  assert (Hunp : forall k' ts', k' <= level_of c -> follow_ok k' ts' ->
+  assert (Hunp : forall k' ts', k' <= level_of c -> follow_ok k' ts' -> (ends_field dec c = true -> not_lt ts') ->
                  parses (MLevel k') (gp dec c ++ ts') (c, ts')).
-  { intros k' ts' Hk' Hf'. specialize (H0 ts'). rewrite E in *. cbn [app] in *.
-    apply (descend_to k' (level_of c)); auto. apply H0. eapply follow_ok_mono; eauto. }
+  { intros k' ts' Hk' Hf' Hl'. specialize (H0 ts'). rewrite E in *. cbn [app] in *.
+    apply (descend_to k' (level_of c)); auto. apply H0; [|exact Hl']. eapply follow_ok_mono; eauto. }
   destruct b; cbn [wrap].
   - cbn [app]. rewrite <- app_assoc. cbn [app].
     apply (descend_to k 9); [lia|lia|cbn; lia|exact Hf|].
     apply paren_parse; [exact Hs| |eapply follow_ok_mono; [|exact Hf]; lia].
-    intros ts' Hf'. apply Hunp; [lia|exact Hf'].
-  - apply Hunp; [|exact Hf]. destruct (Nat.lt_ge_cases (level_of c) k) as [Hlt|]; [|assumption].
-    specialize (Hb Hlt). discriminate.
+    apply Hunp; [lia|exact I|intros _; exact I].
+  - apply Hunp; [|exact Hf|exact Hlt]. destruct (Nat.lt_ge_cases (level_of c) k) as [Hl|]; [|assumption].
+    specialize (Hb Hl). discriminate.
 Qed.
 
 Lemma P_of_A c : A c -> level_of c <> 8 -> P c.
 Proof.
-  intros HA Hne b ts r Hb Hf Hp. eapply level8_step; [|exact Hp].
-  apply (HA 9 b ts); [lia| |exact Hf]. intros Hlt. apply Hb. lia.
+  intros HA Hne b ts r Hb Hf Hlt Hp. eapply level8_step; [|exact Hp].
+  apply (HA 9 b ts); [lia| |exact Hf|exact Hlt]. intros Hl. apply Hb. lia.
 Qed.
 
 Lemma L_of_A c : A c -> (level_of c = 0 \/ 7 <= level_of c) -> L c.
 Proof.
-  intros HA Hl j b ts r Hj Hb Hf Hp. eapply level_step; [lia| |exact Hp].
-  apply (HA (S j) b ts); [lia| |exact Hf]. intros Hlt. apply Hb. lia.
+  intros HA Hl j b ts r Hj Hb Hf Hlt Hp. eapply level_step; [lia| |exact Hp].
+  apply (HA (S j) b ts); [lia| |exact Hf|exact Hlt]. intros Hl'. apply Hb. lia.
 Qed.
-End RoundTrip.
-
-Section Main.
-Variable dec : expr -> side -> bool.
-Notation A := (A dec). Notation L := (L dec). Notation P := (P dec). Notation A0 := (A0 dec).
 
 Lemma wrap_false l : wrap false l = l. Proof. reflexivity. Qed.
+Lemma efp_true c : efp true c = true -> False. Proof. discriminate. Qed.
 
 Theorem all_ALP : forall c, suff dec c = true -> A c /\ L c /\ P c.
 Proof.
@@ -394,114 +405,122 @@ Proof.
     intros Hs; pose proof Hs as Hs'; apply suff_unfold in Hs'; destruct Hs' as [Hn Hc].
   - (* Atom *)
     assert (HA : A (Atom l n)).
-    { apply A_of_A0; [exact Hs|]. intros ts _. exists 1. destruct l; reflexivity. }
+    { apply A_of_A0; [exact Hs|]. intros ts _ _. exists 1. destruct l; reflexivity. }
     split; [exact HA|]. split; [apply L_of_A; [exact HA|cbn; lia]|apply P_of_A; [exact HA|cbn; lia]].
   - (* Field *)
     destruct (IHa Hc) as (Aa & La & Pa).
     assert (Hb1 : level_of a < 8 -> dec (Field a f) SBase = true).
-    { intros Hlt. apply (suff_node_side dec _ SBase Hn). cbn [need]. apply ltb_true. exact Hlt. }
+    { intros Hlt. apply (suff_node_side _ SBase Hn). apply need_level_need. cbn [need_level]. apply ltb_true. exact Hlt. }
     assert (HA : A (Field a f)).
-    { apply A_of_A0; [exact Hs|]. intros ts Hf. cbn [level_of gp] in *. rewrite <- app_assoc. cbn [app].
-      apply Pa; [exact Hb1|cbn; lia|]. apply post_field. apply post_exit. exact Hf. }
+    { apply A_of_A0; [exact Hs|]. intros ts Hf Hlt. cbn [level_of gp] in *. rewrite <- app_assoc. cbn [app].
+      apply Pa; [exact Hb1|cbn; lia|intros _; exact I|]. apply post_field; [apply Hlt; reflexivity|].
+      apply post_exit. exact Hf. }
     split; [exact HA|]. split; [apply L_of_A; [exact HA|cbn; lia]|].
-    intros b ts r Hb Hf Hp. destruct b.
-    + eapply level8_step; [|exact Hp]. apply (HA 9 true ts); [lia|reflexivity|exact Hf].
+    intros b ts r Hb Hf Hlt Hp. destruct b.
+    + eapply level8_step; [|exact Hp]. apply (HA 9 true ts); [lia|reflexivity|exact Hf|intros H; discriminate H].
     + rewrite wrap_false. cbn [gp]. rewrite <- app_assoc. cbn [app].
-      apply Pa; [exact Hb1|cbn; lia|]. apply post_field. exact Hp.
+      apply Pa; [exact Hb1|cbn; lia|intros _; exact I|]. apply post_field; [apply Hlt; reflexivity|exact Hp].
   - (* Call *)
     destruct Hc as [Hca Hcx]. destruct (IHa Hca) as (Aa & La & Pa). destruct (IHx Hcx) as (Ax & _ & _).
     assert (Hb1 : level_of a < 8 -> dec (Call a x) SBase = true).
-    { intros Hlt. apply (suff_node_side dec _ SBase Hn). cbn [need]. apply ltb_true. exact Hlt. }
+    { intros Hlt. apply (suff_node_side _ SBase Hn). apply need_level_need. cbn [need_level]. apply ltb_true. exact Hlt. }
     assert (Harg : forall ts, parses (MLevel 0) (gp dec x ++ RP :: ts) (x, RP :: ts)).
-    { intros ts. apply (Ax 0 false (RP :: ts)); [lia|lia|exact I]. }
+    { intros ts. apply (Ax 0 false (RP :: ts)); [lia|lia|exact I|intros _; exact I]. }
     assert (HA : A (Call a x)).
-    { apply A_of_A0; [exact Hs|]. intros ts Hf. cbn [level_of gp] in *. rewrite <- app_assoc. cbn [app].
+    { apply A_of_A0; [exact Hs|]. intros ts Hf _. cbn [level_of gp] in *. rewrite <- app_assoc. cbn [app].
       rewrite <- app_assoc. cbn [app].
-      apply Pa; [exact Hb1|cbn; lia|]. eapply post_call; [apply Harg|]. apply post_exit. exact Hf. }
+      apply Pa; [exact Hb1|cbn; lia|intros _; exact I|]. eapply post_call; [apply Harg|]. apply post_exit. exact Hf. }
     split; [exact HA|]. split; [apply L_of_A; [exact HA|cbn; lia]|].
-    intros b ts r Hb Hf Hp. destruct b.
-    + eapply level8_step; [|exact Hp]. apply (HA 9 true ts); [lia|reflexivity|exact Hf].
+    intros b ts r Hb Hf Hlt Hp. destruct b.
+    + eapply level8_step; [|exact Hp]. apply (HA 9 true ts); [lia|reflexivity|exact Hf|intros H; discriminate H].
     + rewrite wrap_false. cbn [gp]. rewrite <- app_assoc. cbn [app]. rewrite <- app_assoc. cbn [app].
-      apply Pa; [exact Hb1|cbn; lia|]. eapply post_call; [apply Harg|exact Hp].
+      apply Pa; [exact Hb1|cbn; lia|intros _; exact I|]. eapply post_call; [apply Harg|exact Hp].
   - (* Blk *)
     destruct (IHa Hc) as (Aa & _ & _).
     assert (HA : A (Blk a)).
-    { apply A_of_A0; [exact Hs|]. intros ts _. cbn [level_of gp]. cbn [app]. rewrite <- app_assoc. cbn [app].
-      apply base_blk. apply (Aa 0 false (RB :: ts)); [lia|lia|exact I]. }
+    { apply A_of_A0; [exact Hs|]. intros ts _ _. cbn [level_of gp]. cbn [app]. rewrite <- app_assoc. cbn [app].
+      apply base_blk. apply (Aa 0 false (RB :: ts)); [lia|lia|exact I|intros _; exact I]. }
     split; [exact HA|]. split; [apply L_of_A; [exact HA|cbn; lia]|apply P_of_A; [exact HA|cbn; lia]].
   - (* Un *)
     destruct (IHa Hc) as (Aa & _ & _).
     assert (Hb1 : level_of a < 8 -> dec (Un u a) SArg = true).
-    { intros Hlt. apply (suff_node_side dec _ SArg Hn). cbn [need]. apply ltb_true. exact Hlt. }
+    { intros Hlt. apply (suff_node_side _ SArg Hn). apply need_level_need. cbn [need_level]. apply ltb_true. exact Hlt. }
     assert (HA : A (Un u a)).
-    { apply A_of_A0; [exact Hs|]. intros ts Hf. cbn [level_of gp] in *. cbn [app].
-      apply unary_parse. apply Aa; [lia|exact Hb1|]. eapply follow_ok_mono; [|exact Hf]. lia. }
+    { apply A_of_A0; [exact Hs|]. intros ts Hf Hlt. cbn [level_of gp] in *. cbn [app].
+      apply unary_parse. apply Aa; [lia|exact Hb1| |exact Hlt]. eapply follow_ok_mono; [|exact Hf]. lia. }
     split; [exact HA|]. split; [apply L_of_A; [exact HA|cbn; lia]|apply P_of_A; [exact HA|cbn; lia]].
   - (* Bin *)
     destruct Hc as [Hca Hcb]. destruct (IHa Hca) as (Aa & La & _). destruct (IHb Hcb) as (Ab & _ & _).
     pose proof (plevel_bounds o) as Ho.
     assert (Hbl : level_of a < plevel o -> dec (Bin o a b) SLeft = true).
-    { intros Hlt. apply (suff_node_side dec _ SLeft Hn). cbn [need]. apply ltb_true. exact Hlt. }
+    { intros Hlt. apply (suff_node_side _ SLeft Hn). apply need_level_need. cbn [need_level]. apply ltb_true. exact Hlt. }
+    assert (Hbl_lt : efp (dec (Bin o a b) SLeft) a = true -> not_lt (TOp o :: wrap (dec (Bin o a b) SRight) (gp dec b))).
+    { intros He. destruct o; try exact I. unfold efp in He. apply andb_prop in He. destruct He as [He1 He2].
+      rewrite (suff_node_side _ SLeft Hn) in He1; [discriminate|].
+      unfold need. cbn [need_lt is_lt]. rewrite He2. apply orb_true_r. }
     assert (Hbr : level_of b < S (plevel o) -> dec (Bin o a b) SRight = true).
-    { intros Hlt. apply (suff_node_side dec _ SRight Hn). cbn [need]. apply ltb_true. exact Hlt. }
+    { intros Hlt. apply (suff_node_side _ SRight Hn). apply need_level_need. cbn [need_level]. apply ltb_true. exact Hlt. }
     (* continuing the chain at the node's own level *)
-    assert (Hchain : forall ts r, follow_ok (S (plevel o)) ts -> parses (MLoop (plevel o) (Bin o a b)) ts r ->
+    assert (Hchain : forall ts r, follow_ok (S (plevel o)) ts -> (ends_field dec (Bin o a b) = true -> not_lt ts) ->
+                     parses (MLoop (plevel o) (Bin o a b)) ts r ->
                      parses (MLevel (plevel o)) (gp dec (Bin o a b) ++ ts) r).
-    { intros ts r Hf Hp. cbn [gp]. rewrite <- app_assoc. cbn [app].
-      apply La; [lia|exact Hbl|cbn; lia|].
-      eapply loop_step; [reflexivity| |exact Hp].
-      apply Ab; [lia|exact Hbr|exact Hf]. }
+    { intros ts r Hf Hlt Hp. cbn [gp]. rewrite <- app_assoc. cbn [app].
+      apply La; [lia|exact Hbl|cbn; lia| |].
+      - intros He. specialize (Hbl_lt He). destruct o; exact I || exact Hbl_lt.
+      - eapply loop_step; [reflexivity| |exact Hp].
+        apply Ab; [lia|exact Hbr|exact Hf|exact Hlt]. }
     assert (HA : A (Bin o a b)).
-    { apply A_of_A0; [exact Hs|]. intros ts Hf. cbn [level_of] in *.
-      apply Hchain; [eapply follow_ok_mono; [|exact Hf]; lia|]. apply loop_exit. exact Hf. }
+    { apply A_of_A0; [exact Hs|]. intros ts Hf Hlt. cbn [level_of] in *.
+      apply Hchain; [eapply follow_ok_mono; [|exact Hf]; lia|exact Hlt|]. apply loop_exit. exact Hf. }
     split; [exact HA|]. split.
-    + intros j bf ts r Hj Hb Hf Hp. cbn [level_of] in Hb.
+    + intros j bf ts r Hj Hb Hf Hlt Hp. cbn [level_of] in Hb.
       destruct bf.
-      * eapply level_step; [lia| |exact Hp]. apply (HA (S j) true ts); [lia|reflexivity|exact Hf].
+      * eapply level_step; [lia| |exact Hp]. apply (HA (S j) true ts); [lia|reflexivity|exact Hf|intros H; discriminate H].
       * rewrite wrap_false.
         destruct (Nat.eq_dec (plevel o) j) as [<-|Hne].
         -- apply Hchain; assumption.
         -- eapply level_step; [lia| |exact Hp].
            assert (Hge : j <= plevel o).
-           { destruct (Nat.lt_ge_cases (plevel o) j) as [Hlt|]; [specialize (Hb Hlt); discriminate|assumption]. }
-           apply (HA (S j) false ts); [lia| |exact Hf]. cbn [level_of]. intros. lia.
-    + intros bf ts r Hb Hf Hp. cbn [level_of] in Hb. rewrite (Hb ltac:(lia)).
-      eapply level8_step; [|exact Hp]. apply (HA 9 true ts); [lia|reflexivity|exact Hf].
+           { destruct (Nat.lt_ge_cases (plevel o) j) as [Hl|]; [specialize (Hb Hl); discriminate|assumption]. }
+           apply (HA (S j) false ts); [lia| |exact Hf|exact Hlt]. cbn [level_of]. intros. lia.
+    + intros bf ts r Hb Hf Hlt Hp. cbn [level_of] in Hb. rewrite (Hb ltac:(lia)).
+      eapply level8_step; [|exact Hp]. apply (HA 9 true ts); [lia|reflexivity|exact Hf|intros H; discriminate H].
   - (* If *)
     destruct Hc as (Hcc & Hca & Hcb).
     destruct (IHc Hcc) as (Ac & _ & _). destruct (IHa Hca) as (Aa & _ & _). destruct (IHb Hcb) as (Ab & _ & _).
     assert (HA : A (If c a b)).
-    { apply A_of_A0; [exact Hs|]. intros ts _. cbn [level_of gp]. cbn [app].
+    { apply A_of_A0; [exact Hs|]. intros ts _ _. cbn [level_of gp]. cbn [app].
       repeat (rewrite <- app_assoc; cbn [app]).
       eapply if_parse.
-      - apply (Ac 0 false); [lia|lia|exact I].
-      - apply (Aa 0 false); [lia|lia|exact I].
-      - apply (Ab 0 false); [lia|lia|exact I]. }
+      - apply (Ac 0 false); [lia|lia|exact I|intros _; exact I].
+      - apply (Aa 0 false); [lia|lia|exact I|intros _; exact I].
+      - apply (Ab 0 false); [lia|lia|exact I|intros _; exact I]. }
     split; [exact HA|]. split; [apply L_of_A; [exact HA|cbn; lia]|apply P_of_A; [exact HA|cbn; lia]].
   - (* Mat *)
     destruct Hc as (Hcs & Hcb).
     destruct (IHs Hcs) as (As & _ & _). destruct (IHb Hcb) as (Ab & _ & _).
     assert (HA : A (Mat s p b)).
-    { apply A_of_A0; [exact Hs|]. intros ts _. cbn [level_of gp]. cbn [app].
+    { apply A_of_A0; [exact Hs|]. intros ts _ _. cbn [level_of gp]. cbn [app].
       repeat (rewrite <- app_assoc; cbn [app]).
       eapply match_parse.
-      - apply (As 0 false); [lia|lia|exact I].
-      - apply (Ab 0 false); [lia|lia|exact I]. }
+      - apply (As 0 false); [lia|lia|exact I|intros _; exact I].
+      - apply (Ab 0 false); [lia|lia|exact I|intros _; exact I]. }
     split; [exact HA|]. split; [apply L_of_A; [exact HA|cbn; lia]|apply P_of_A; [exact HA|cbn; lia]].
   - (* Lam *)
     destruct (IHb Hc) as (Ab & _ & _).
-    assert (HA9 : forall ts, follow_ok 0 ts -> parses (MLevel 9) (gp dec (Lam x b) ++ ts) (Lam x b, ts)).
-    { intros ts Hf. cbn [gp app]. apply base_lam. apply Ab; [lia|lia|exact Hf]. }
+    assert (HA9 : forall ts, follow_ok 0 ts -> (ends_field dec (Lam x b) = true -> not_lt ts) ->
+                  parses (MLevel 9) (gp dec (Lam x b) ++ ts) (Lam x b, ts)).
+    { intros ts Hf Hlt. cbn [gp app]. apply base_lam. apply Ab; [lia|lia|exact Hf|exact Hlt]. }
     assert (HA : A (Lam x b)).
-    { apply A_of_A0; [exact Hs|]. intros ts Hf. cbn [level_of] in *.
-      specialize (HA9 ts Hf). cbn [gp app] in *. apply (descend_to 0 9); [lia|lia|cbn; lia|exact Hf|exact HA9]. }
+    { apply A_of_A0; [exact Hs|]. intros ts Hf Hlt. cbn [level_of] in *.
+      specialize (HA9 ts Hf Hlt). cbn [gp app] in *. apply (descend_to 0 9); [lia|lia|cbn; lia|exact Hf|exact HA9]. }
     split; [exact HA|]. split; [apply L_of_A; [exact HA|cbn; lia]|apply P_of_A; [exact HA|cbn; lia]].
 Qed.
 
 Theorem gp_roundtrip e : suff dec e = true -> exists fuel, parse_expr fuel (gp dec e) = Some e.
 Proof.
   intros Hs. destruct (all_ALP e Hs) as (HA & _ & _).
-  destruct (HA 0 false [] ltac:(lia) ltac:(lia) I) as [f H]. rewrite wrap_false, app_nil_r in H.
+  destruct (HA 0 false [] ltac:(lia) ltac:(lia) I ltac:(intros _; exact I)) as [f H]. rewrite wrap_false, app_nil_r in H.
   exists f. unfold parse_expr. rewrite H. reflexivity.
 Qed.
-End Main.
+End RoundTrip.
